@@ -17,4 +17,6 @@ def check(run, replay=None):
                             translated=[("Props/C07T", ["c07_translated_declared_handlers_run", "c07_translated_pass_through",
                                                        "c07_translated_always_handler"]),
                                         ("Props/C07R", ["c07_translated_reply_entry_of_one_handler", "c07_translated_payload_of_a_handler",
-                                                        "c07_translated_second_handler_of_a_reply_id", "c07_translated_an_is_payload_marked"])])
+                                                        "c07_translated_second_handler_of_a_reply_id", "c07_translated_an_is_payload_marked"]),
+                                        # the hand model of the core theorems and the specifications proved of the translated code agree
+                                        ("Props/C07B", ["c07_hand_model_payload_is_the_translated_one", "c09_hand_model_merge_keeps_data_and_appends"])])
